@@ -127,7 +127,7 @@ OTHER_ATTRS = ["id", "title", "style", "data-x", "loading"]
 
 def gen_fragment(R):
     """An HTML fragment that is never 'all img / all div.admonition' (pass-through expected in every configuration)."""
-    k = R.randrange(22)
+    k = R.randrange(26)
     v = R.choice(VALUES).replace('"', "&quot;").replace("\t", " ")
     if k == 0:
         return f'<div class="box" data-v="{v}">\ninner <b>bold</b> *not md*\n</div>', "block"
@@ -173,6 +173,15 @@ def gen_fragment(R):
         return '<div class="admonition note"><ul><li>item <em>open</div>\n<span>after</span>', "block"
     if k == 20:
         return '<img src="first.png"><p>tail', "block"
+    # ... or by something that has no tag name at all (a comment, text, a character reference, a processing instruction)
+    if k == 22:
+        return '<img src="a.png">\n<!-- prettier-ignore -->', "block"
+    if k == 23:
+        return '<div class="admonition">\n<p>x</p>\n</div>\n<!-- markdownlint-disable -->\n<?pi y?>', "block"
+    if k == 24:
+        return f'<img src="a.png">\nFigure 1: caption {v.replace("<", "&lt;")}', "block"
+    if k == 25:
+        return '<img src="a.png" alt="A"> &amp; &#35;\n<img src="b.png">', "block"
     return R.choice(["<!-- never closed " + v.replace("--", "- -"), "<?php never closed", "<![CDATA[ never closed", "<!DOCTYPE never closed"]), "block"
 
 
@@ -550,7 +559,7 @@ def case_adm(R):
                       'x <a href="" title="">empty values</a> y', 'tick <input type="checkbox" disabled checked> box', 'q <span title="say &quot;hi&quot;" data-x="">s</span>', "<b class=\"\">b</b> <i hidden>i</i>",
                       # self-closing tags of elements that are not void (svg, MathML, custom elements): the solidus is part of the source
                       'icon <x-icon name="a"/> after <b>bold</b>', '<svg width="9"><circle r="8"/><rect width="1"/></svg> pic', "m <math><mi/><mo/></math> n", "br <br/> img <img src=\"i.png\"/> div <div/> tail"]) for _ in range(R.randint(0, 2))]
-    bare = R.choice([None, None, "bare **text** &#42;x&#42;", "- item one\n- item two"]) if paras else R.choice(["bare **text**", "- item one\n- item two", "x &#95;y&#95;"])
+    bare = R.choice([None, None, "bare **text** &#42;x&#42;", "- item one\n- item two", "<!-- a comment inside the admonition -->"]) if paras else R.choice(["bare **text**", "- item one\n- item two", "x &#95;y&#95;"])
     title = R.choice([None, "My *title*", "T &amp; U", "&#42;T&#42;", "plain"])
     return {"kind": "adm", "classes": R.choice(["admonition", "admonition note", "warning admonition x-y", "admonition  two  spaces"]), "name": R.choice([None, None, "adm-name", "Name With Caps", "n#1", 'q"uote']), "title": title,
             "title_tag": R.choice(["p", "div"]), "title_class": R.choice(["title", "admonition-title", "title extra", "title", "extra admonition-title"] + NON_TITLE_CLASSES), "paras": paras, "bare": bare, "img": R.random() < 0.3, "tagcase": R.choice(["lower", "lower", "upper", "mixed"]), "unclosed": R.random() < 0.3, "twice": R.random() < 0.3}
